@@ -70,6 +70,9 @@ Expected(doc) == IF Accept(doc)
 (* holds some array `prior`.  The meaning of a document does not depend on *)
 (* the entry point or on the destination:                                  *)
 (***************************************************************************)
+\* A third kind of entry point is the data format itself: a length-prefixed format announces the length of `data` before
+\* its elements (SeqAccess::size_hint).  The announced length is not part of the abstract document - only the elements that
+\* follow are - so it cannot change the meaning either (and a huge announced length must not make the library allocate).
 InPlaceResult(prior, doc) == Expected(doc)                 \* on success the destination IS the array the document states
 InPlaceAfterError(place) == place.nc * place.nr = place.n /\ (place.nc = 0 <=> place.nr = 0)   \* on failure: any valid array
 
